@@ -72,6 +72,8 @@ import contracts.c03_task as K  # noqa
 # gap of a dependency item in seconds (gapduration only; gaplength is working time, handled by its own loop)
 ghost("DepOn", ["d"], "ite(d.is_dict, d.onstart, False)")
 ghost("DepTime", ["d", "sc"], "ite(DepOn(d), TStart(some(DepTask(d)), sc), TEnd(some(DepTask(d)), sc))")
+ghost("GapLengthEdge", ["d"], "d.is_dict and not (d.gapduration is not None and some(d.gapduration) != '') and "
+                              "d.gaplength is not None and some(d.gaplength) != ''")
 ghost("DepGap", ["d"], "ite(d.is_dict and d.gapduration is not None and some(d.gapduration) != '', uf_dur(some(d.gapduration)) * 3600, 0)")
 
 contract(
@@ -188,6 +190,14 @@ contract(
                       "earliest_start >= some(TStart(self.property, self.scenarioIdx)))"),
             ("dominates", "forall(k, 0, _i, implies(DepTask(_iter[k]) is not None and DepTime(_iter[k], self.scenarioIdx) is not None, "
                           "secs(earliest_start) >= secs(some(DepTime(_iter[k], self.scenarioIdx))) + DepGap(_iter[k])))"),
+            # C08: the bound is never later than necessary: it is the project start, the start inherited from a dated
+            # container, or exactly some predecessor's date plus the gap duration of that edge (for a gaplength edge: the
+            # date computed by the working-slot count) -- so the slot walk begins where the task may begin
+            ("attained", "earliest_start == PStart(self.project) or "
+                         "(TStart(self.property, self.scenarioIdx) is not None and earliest_start == some(TStart(self.property, self.scenarioIdx))) or "
+                         "exists(k, 0, _i, DepTask(_iter[k]) is not None and DepTime(_iter[k], self.scenarioIdx) is not None and "
+                         "(GapLengthEdge(_iter[k]) or "
+                         "secs(earliest_start) == secs(some(DepTime(_iter[k], self.scenarioIdx))) + DepGap(_iter[k])))"),
         ], "locals": {"earliest_start": DT, "t": Opt(Ref("Task")), "gapduration": Opt(Str), "gaplength": Opt(Str),
                       "onstart": Bool, "dep_time": Opt(DT), "gap_hours": Real}},
         # the working-slot count of a gaplength edge: stays inside the working-time table, never moves backwards
